@@ -313,4 +313,36 @@ theorem admissible3_sub4 (P : Prog) : ∀ (evs : List Ev) (g : Bool) (p : Option
           have hok4 : wakeOk4 g p c x = true := by simp [wakeOk4, hok]
           cases x <;> first | (simp [evAllowed4, hw, hok4]) | exact absurd rfl h1 | exact absurd rfl h2 | exact absurd rfl h3
 
+/-! ### the one-step commutation behind the fourth class, stated on its own -/
+
+theorem firstTarget_cr (d : Cfg) (s : SObj) (h : firstTarget d = some s) : isCR s = true := by
+  unfold firstTarget at h
+  split at h
+  · split at h
+    · cases h; rfl
+    · cases h
+  · split at h
+    · cases h; rfl
+    · cases h
+  · cases h
+
+theorem firstStep_resumeNoop (d : Cfg) (hok : okFirst d = true) (hi : d.interrupt = none) (hl : terminal d.st.label = false)
+    (hc : d.closed = false) (hr : ResumeNoop d) : ResumeNoop (firstStep d) := by
+  rw [firstStep_eq d hok hi hl hc]
+  split
+  · rename_i s hs
+    exact Or.inl (by rw [(toRunning_fields d s).2.2.2]; exact isCR_notWaiting (firstTarget_cr d s hs))
+  · exact hr
+
+/-- **a wake-up request commutes with the first step of a tick** when that step is a transition into RUNNING (the user code
+returns a continuation, or the wait was resumed with a value) or the stepping task has not started, and the request is a
+`resume` that is refused or ineffective, a `call_soon`, the run of a non-raising callback, or the completion of a future that
+carries no done-callback (`pendOk`, with `L` ⊇ the futures carrying one) -/
+theorem firstStep_wake_comm (P : Prog) (L : List Nat) (d : Cfg) (e : Ev) (hok : okFirst d = true) (hi : d.interrupt = none)
+    (hl : terminal d.st.label = false) (hc : d.closed = false) (hr : ResumeNoop d) (hL : ∀ f, f ∈ d.efCb → f ∈ L)
+    (he : pendOk L e = true) : firstStep (step P d e).1 = (step P (firstStep d) e).1 := by
+  obtain ⟨f1, f2, f3⟩ := firstStep_fields d hok hi hl hc
+  rw [wake_upd P d L e he hL hr, firstStep_upd d _ _ hok hi hl hc,
+    wake_upd P (firstStep d) L e he (fun f hf => hL f (f3 f hf)) (firstStep_resumeNoop d hok hi hl hc hr), f1, f2]
+
 end PMF
